@@ -26,6 +26,56 @@ import (
 type tx struct {
 	imports map[string]string // local name -> path
 	used    map[string]bool   // local names referenced by the declarations
+	flat    bool              // operator expressions as ONE fluent chain instead of nested operands (every second file)
+	layout  bool              // keep the source's line breaks inside expression lists and after binary operators as Line()
+	fs      *token.FileSet
+}
+
+// brk: e starts on a later line than prev ends - the translation keeps that line break (layout may differ from the
+// source, so nothing depends on it: half of the files keep them, half drop them)
+func (t *tx) brk(prev token.Pos, e ast.Node) bool {
+	return t.layout && prev.IsValid() && e != nil && t.fs.Position(e.Pos()).Line > t.fs.Position(prev).Line
+}
+
+func lineFirst(n *Node) *Node {
+	ln := &Node{K: "tok", T: "layout", V: "\n"}
+	if n.K == "stmt" && n.Form == "" {
+		return stm(append([]*Node{ln}, n.Items...)...)
+	}
+	return stm(ln, n)
+}
+
+// exprsAt: an expression list; open is the position of the opening delimiter (NoPos when the list has none)
+func (t *tx) exprsAt(es []ast.Expr, open token.Pos) []*Node {
+	out := []*Node{}
+	prev := open
+	for _, e := range es {
+		n := t.expr(e)
+		if t.brk(prev, e) {
+			n = lineFirst(n)
+		}
+		out = append(out, n)
+		prev = e.End()
+	}
+	return out
+}
+
+// chain: an operator expression.  The documented way to write `a & ^b` is the fluent chain Id("a").Op("&").Op("^").Id("b");
+// operands that are chains themselves may equally be added as values of their own, Id("a").Op("&").Add(Op("^").Id("b")).
+// Half of the files are translated the first way (operands spliced into one statement), half the second way.
+func (t *tx) chain(parts ...*Node) *Node {
+	if !t.flat {
+		return stm(parts...)
+	}
+	out := []*Node{}
+	for _, p := range parts {
+		if p != nil && p.K == "stmt" && p.Form == "" {
+			out = append(out, p.Items...)
+		} else {
+			out = append(out, p)
+		}
+	}
+	return stm(out...)
 }
 
 func nq(path, name string) *Node {
@@ -163,6 +213,9 @@ func (t *tx) expr(e ast.Expr) *Node {
 	case *ast.BasicLit:
 		return stm(t.lit(e))
 	case *ast.ParenExpr:
+		if t.brk(e.Lparen, e.X) {
+			return stm(grp("parens", lineFirst(t.expr(e.X))))
+		}
 		return stm(grp("parens", t.expr(e.X)))
 	case *ast.SelectorExpr:
 		if id, ok := e.X.(*ast.Ident); ok && id.Obj == nil {
@@ -171,11 +224,11 @@ func (t *tx) expr(e ast.Expr) *Node {
 				return stm(nq(p, e.Sel.Name))
 			}
 		}
-		return stm(t.expr(e.X), &Node{K: "tok", T: "delim", V: "."}, idn(e.Sel.Name))
+		return t.chain(t.expr(e.X), &Node{K: "tok", T: "delim", V: "."}, idn(e.Sel.Name))
 	case *ast.IndexExpr:
-		return stm(t.expr(e.X), grp("index", t.expr(e.Index)))
+		return t.chain(t.expr(e.X), grp("index", t.expr(e.Index)))
 	case *ast.IndexListExpr:
-		return stm(t.expr(e.X), grp("types", t.exprs(e.Indices)...))
+		return t.chain(t.expr(e.X), grp("types", t.exprsAt(e.Indices, e.Lbrack)...))
 	case *ast.SliceExpr:
 		items := []*Node{stm(opn("")), stm(opn(""))}
 		if e.Low != nil {
@@ -187,25 +240,28 @@ func (t *tx) expr(e ast.Expr) *Node {
 		if e.Slice3 {
 			items = append(items, t.expr(e.Max))
 		}
-		return stm(t.expr(e.X), grp("index", items...))
+		return t.chain(t.expr(e.X), grp("index", items...))
 	case *ast.TypeAssertExpr:
 		if e.Type == nil {
-			return stm(t.expr(e.X), grp("assert", stm(kwn("type"))))
+			return t.chain(t.expr(e.X), grp("assert", stm(kwn("type"))))
 		}
-		return stm(t.expr(e.X), grp("assert", t.expr(e.Type)))
+		return t.chain(t.expr(e.X), grp("assert", t.expr(e.Type)))
 	case *ast.CallExpr:
-		args := t.exprs(e.Args)
+		args := t.exprsAt(e.Args, e.Lparen)
 		if e.Ellipsis.IsValid() {
 			last := args[len(args)-1]
 			args[len(args)-1] = stm(last, opn("..."))
 		}
-		return stm(t.expr(e.Fun), grp("call", args...))
+		return t.chain(t.expr(e.Fun), grp("call", args...))
 	case *ast.StarExpr:
-		return stm(opn("*"), t.expr(e.X))
+		return t.chain(opn("*"), t.expr(e.X))
 	case *ast.UnaryExpr:
-		return stm(opn(e.Op.String()), t.expr(e.X))
+		return t.chain(opn(e.Op.String()), t.expr(e.X))
 	case *ast.BinaryExpr:
-		return stm(t.expr(e.X), opn(e.Op.String()), t.expr(e.Y))
+		if t.brk(e.OpPos, e.Y) {
+			return t.chain(t.expr(e.X), opn(e.Op.String()), lineFirst(t.expr(e.Y)))
+		}
+		return t.chain(t.expr(e.X), opn(e.Op.String()), t.expr(e.Y))
 	case *ast.KeyValueExpr:
 		return stm(t.expr(e.Key), opn(":"), t.expr(e.Value))
 	case *ast.CompositeLit:
@@ -213,7 +269,7 @@ func (t *tx) expr(e ast.Expr) *Node {
 		if e.Type != nil {
 			s.Items = append(s.Items, t.expr(e.Type))
 		}
-		s.Items = append(s.Items, grp("values", t.exprs(e.Elts)...))
+		s.Items = append(s.Items, grp("values", t.exprsAt(e.Elts, e.Lbrace)...))
 		return s
 	case *ast.FuncLit:
 		s := t.funcType(stm(kwn("func")), e.Type)
@@ -261,8 +317,15 @@ func (t *tx) expr(e ast.Expr) *Node {
 
 func (t *tx) stmts(ss []ast.Stmt) []*Node {
 	out := []*Node{}
+	prev := token.NoPos
 	for _, s := range ss {
-		out = append(out, t.stmt(s))
+		n := t.stmt(s)
+		// a blank line in front of the statement is kept as g.Line().<statement> (layout option)
+		if t.layout && prev.IsValid() && t.fs.Position(s.Pos()).Line > t.fs.Position(prev).Line+1 && n.K == "stmt" && n.Form == "" {
+			n = lineFirst(n)
+		}
+		out = append(out, n)
+		prev = s.End()
 	}
 	return out
 }
@@ -270,7 +333,7 @@ func (t *tx) stmts(ss []ast.Stmt) []*Node {
 func (t *tx) stmt(s ast.Stmt) *Node {
 	switch s := s.(type) {
 	case *ast.AssignStmt:
-		return stm(listOrOne(t.exprs(s.Lhs)), opn(s.Tok.String()), listOrOne(t.exprs(s.Rhs)))
+		return t.chain(listOrOne(t.exprsAt(s.Lhs, token.NoPos)), opn(s.Tok.String()), listOrOne(t.exprsAt(s.Rhs, token.NoPos)))
 	case *ast.BlockStmt:
 		return stm(grp("block", t.stmts(s.List)...))
 	case *ast.BranchStmt:
@@ -282,19 +345,19 @@ func (t *tx) stmt(s ast.Stmt) *Node {
 	case *ast.DeclStmt:
 		return t.decl(s.Decl)
 	case *ast.DeferStmt:
-		return stm(kwn("defer"), t.expr(s.Call))
+		return t.chain(kwn("defer"), t.expr(s.Call))
 	case *ast.GoStmt:
-		return stm(kwn("go"), t.expr(s.Call))
+		return t.chain(kwn("go"), t.expr(s.Call))
 	case *ast.EmptyStmt:
 		return stm(&Node{K: "tok", T: "null"})
 	case *ast.ExprStmt:
 		return t.expr(s.X)
 	case *ast.IncDecStmt:
-		return stm(t.expr(s.X), opn(s.Tok.String()))
+		return t.chain(t.expr(s.X), opn(s.Tok.String()))
 	case *ast.SendStmt:
-		return stm(t.expr(s.Chan), opn("<-"), t.expr(s.Value))
+		return t.chain(t.expr(s.Chan), opn("<-"), t.expr(s.Value))
 	case *ast.ReturnStmt:
-		return stm(grp("return", t.exprs(s.Results)...))
+		return stm(grp("return", t.exprsAt(s.Results, token.NoPos)...))
 	case *ast.LabeledStmt:
 		st := stm(idn(s.Label.Name), opn(":"))
 		if es, ok := s.Stmt.(*ast.EmptyStmt); ok {
@@ -385,7 +448,7 @@ func (t *tx) clauses(ss []ast.Stmt) []*Node {
 			if c.List == nil {
 				out = append(out, stm(kwn("default"), grp("block", t.stmts(c.Body)...)))
 			} else {
-				out = append(out, stm(grp("case", t.exprs(c.List)...), grp("block", t.stmts(c.Body)...)))
+				out = append(out, stm(grp("case", t.exprsAt(c.List, token.NoPos)...), grp("block", t.stmts(c.Body)...)))
 			}
 		case *ast.CommClause:
 			if c.Comm == nil {
@@ -572,7 +635,7 @@ func TranslateFile(fn string, src []byte) (h []Action, info *SourceInfo, err err
 		return nil, &SourceInfo{Skip: "does not parse"}, nil
 	}
 	info = &SourceInfo{Pkg: af.Name.Name, Imports: map[impSpec]bool{}}
-	t := &tx{imports: map[string]string{}, used: map[string]bool{}}
+	t := &tx{imports: map[string]string{}, used: map[string]bool{}, flat: len(src)%2 == 1, layout: (len(src)/2)%2 == 1, fs: fs}
 	a := Action{A: "New", Name: af.Name.Name}
 	h = []Action{a}
 	seenPath := map[string]string{}
